@@ -56,6 +56,8 @@ func (p *Profile) props(m Mismatch) map[string]bool {
 				delete(out, "C02")
 			}
 		}
+	case "stream order":
+		out["C03"] = true
 	case "single slot holds an earlier message":
 		out["C03"] = true
 	case "message type", "slot count", "accessors", "accessor succeeds for an unsupported file type", "file type",
